@@ -75,15 +75,68 @@ def run(prog: Program, rep: Report, tier: str):
         audit_generic(prog, rep, "C14")
 
 
+def _callee_of(prog, m, node):
+    f = node.func
+    q = None
+    if isinstance(f, ast.Name):
+        q = prog.resolve(m, f.id)
+    elif isinstance(f, ast.Attribute) and isinstance(f.value, ast.Name) and f.value.id in m.aliases:
+        q = prog.resolve(m, ast.unparse(f))
+    if q and q.startswith("flowjax."):
+        r = prog.lookup(q)
+        if r and r[0] == "func":
+            return q, r[2]
+    return None
+
+
 def rule_trace(prog, rep, fns):
     rep.rule("C14.trace", "no Python-level control flow, bool()/int()/float()/.item(), range(), NumPy/math call or "
                           "value-dependent-shape call on a traced value (data argument, array field, or a value "
                           "computed from one) in any bijection / distribution / wrapper / loss method, the bisection "
                           "search, or a repo function reachable from them; static projections (.shape, .ndim, len, "
-                          "is None, isinstance, static fields, enumerate indices) are untainted", minimum=100)
+                          "is None, isinstance, static fields, enumerate indices) are untainted; parameters of helper "
+                          "functions are traced iff some call site passes a traced argument", minimum=100)
+    # module-level helpers: parameter taint comes from their call sites (interprocedural, to a fixpoint)
+    helper_keys = {}
     for m, c, fn in fns:
-        ft = FnTaint(prog, m, c, fn)
-        ft.propagate()
+        if c is None:
+            helper_keys[f"{m.name}.{fn.name}"] = (m, fn)
+    site_taint: dict = {}     # qual -> {param: bool}
+    results = {}
+    for _round in range(4):
+        changed = False
+        for m, c, fn in fns:
+            qual = f"{m.name}.{(c.name + '.') if c else ''}{fn.name}"
+            tp = None
+            if c is None and qual in site_taint:
+                tp = {p for p, t in site_taint[qual].items() if t}
+            ft = FnTaint(prog, m, c, fn, tainted_params=tp)
+            ft.propagate()
+            results[(m.name, c.qualname if c else None, fn.name, fn.lineno)] = (m, c, fn, ft)
+            for node in ast.walk(fn):
+                if isinstance(node, ast.Call):
+                    r = _callee_of(prog, m, node)
+                    if not r:
+                        continue
+                    q, cfn = r
+                    names = [p.arg for p in cfn.args.posonlyargs + cfn.args.args]
+                    cur = site_taint.setdefault(q, {})
+                    for i2, a in enumerate(node.args):
+                        if isinstance(a, ast.Starred) or i2 >= len(names):
+                            continue
+                        t = ft.is_tainted(a)
+                        if t and not cur.get(names[i2]):
+                            changed = True
+                        cur[names[i2]] = cur.get(names[i2], False) or t
+                    for kw2 in node.keywords:
+                        if kw2.arg:
+                            t = ft.is_tainted(kw2.value)
+                            if t and not cur.get(kw2.arg):
+                                changed = True
+                            cur[kw2.arg] = cur.get(kw2.arg, False) or t
+        if not changed:
+            break
+    for (mn, cq, fname, ln), (m, c, fn, ft) in sorted(results.items(), key=lambda kv: (kv[0][0], kv[0][3])):
         sinks = ft.sinks()
         qual = f"{m.name}.{(c.name + '.') if c else ''}{fn.name}"
         site = f"{m.relpath}:{fn.lineno}"
